@@ -881,6 +881,7 @@ class Emitter:
         self.emitted_funcs = []
         self.emitted_globals = []
         self.extern_globals = []
+        self.adhoc_by_size = {}
 
     # ---- names
     def sname(self, t):
@@ -1145,6 +1146,21 @@ class Emitter:
         (pt, pv) = ops[0]
         base = self.cv(pt, pv, ctx)
         rest = ops[1:]
+        # negative constant index (array cookies, container_of): LLVM only materialises the FINAL address; a typed C path would
+        # form an intermediate out-of-object pointer, so emit the statically computed byte offset instead
+        if all(i[0] == 'int' for _, i in rest) and any(i[1] < 0 for _, i in rest):
+            off = 0
+            cur = self.m.resolve(srcty)
+            off += rest[0][1][1] * self.m.size(cur)
+            for (t, i) in rest[1:]:
+                cur = self.m.resolve(cur)
+                if cur.k == 'struct':
+                    off += self.m.field_offset(cur, i[1])
+                    cur = cur.fields[i[1]]
+                elif cur.k == 'arr':
+                    off += i[1] * self.m.size(cur.elem)
+                    cur = cur.elem
+            return '((u8*)%s + (%d))' % (base, off)
         # special case: all-zero trailing indices into struct with dropped zero-size fields
         try:
             e, _ = self.gep_path(srcty, base, rest, ctx)
@@ -1178,7 +1194,8 @@ class Emitter:
         if op == 'sext':
             if t.bits == 1:
                 return '((%s)(0 - (%s)%s))' % (self.ct(to), self.ct(to), x)
-            return '((%s)(%s)(%s)%s)' % (self.ct(to), self.sct(to), self.sct(t), self.sx(t, x))
+            r_ = '((%s)(%s)(%s)%s)' % (self.ct(to), self.sct(to), self.sct(t), self.sx(t, x))
+            return r_ if not self.odd(to) else '((%s)(%s & %dULL))' % (self.ct(to), r_, (1 << to.bits) - 1)
         if op in ('uitofp',):
             return '((%s)%s)' % (self.ct(to), x)
         if op == 'sitofp':
@@ -1196,8 +1213,16 @@ class Emitter:
             return ' & %dU' % ((1 << t.bits) - 1)
         return ''
 
+    def odd(self, t):
+        t = self.m.resolve(t)
+        return t.k == 'int' and t.bits not in (1, 8, 16, 32, 64)
+
     def sx(self, t, x):
-        """sign-adjust odd-width ints (only i1 handled elsewhere)"""
+        """value of odd-width int x sign-extended into its C container"""
+        t = self.m.resolve(t)
+        if self.odd(t):
+            c = 64 if t.bits > 32 else 32
+            return '((u%d)(((i%d)((u%d)%s << %d)) >> %d))' % (c, c, c, x, c - t.bits, c - t.bits)
         return x
 
     def binop_expr(self, op, t, a, b, ctx):
@@ -1213,6 +1238,18 @@ class Emitter:
         if t.bits == 1:
             o = {'and': '&', 'or': '|', 'xor': '^', 'add': '^', 'sub': '^', 'mul': '&'}[op]
             return '((u8)((%s %s %s) & 1))' % (A, o, B)
+        if self.odd(t):
+            M = ' & %dULL' % ((1 << t.bits) - 1)
+            if op in ('add', 'sub', 'mul', 'and', 'or', 'xor', 'shl'):
+                o = {'add': '+', 'sub': '-', 'mul': '*', 'and': '&', 'or': '|', 'xor': '^', 'shl': '<<'}[op]
+                return '((%s)(((%s)%s %s (%s)%s)%s))' % (C, wide, A, o, wide, B, M)
+            if op in ('udiv', 'urem', 'lshr'):
+                o = {'udiv': '/', 'urem': '%', 'lshr': '>>'}[op]
+                return '((%s)(%s %s %s))' % (C, A, o, B)
+            if op in ('sdiv', 'srem', 'ashr'):
+                o = {'sdiv': '/', 'srem': '%', 'ashr': '>>'}[op]
+                SA, SB = self.sx(t, A), (self.sx(t, B) if op != 'ashr' else B)
+                return '((%s)(((%s)%s %s (%s)%s)%s))' % (C, S, SA, o, S, SB, M)
         if op in ('add', 'sub', 'mul', 'and', 'or', 'xor'):
             o = {'add': '+', 'sub': '-', 'mul': '*', 'and': '&', 'or': '|', 'xor': '^'}[op]
             return '((%s)((%s)%s %s (%s)%s))' % (C, wide, A, o, wide, B)
@@ -1238,7 +1275,7 @@ class Emitter:
              'sgt': '>', 'sge': '>=', 'slt': '<', 'sle': '<='}[pred]
         if pred[0] == 's' and t.k == 'int':
             S = self.sct(t)
-            return '((u8)((%s)%s %s (%s)%s))' % (S, A, o, S, B)
+            return '((u8)((%s)%s %s (%s)%s))' % (S, self.sx(t, A), o, S, self.sx(t, B))
         if t.k == 'ptr' and pred not in ('eq', 'ne'):
             return '((u8)((u64)%s %s (u64)%s))' % (A, o, B)
         return '((u8)(%s %s %s))' % (A, o, B)
@@ -1305,6 +1342,7 @@ class Emitter:
         self.used_types = []
         self.used_globals = set()
         fs, gs = self.reach(roots)
+        self.reach_fs, self.reach_gs = set(fs), set(gs)
         fs = [n for n in self.m.funcs if n in fs]
         bodies = []
         for n in fs:      # dry run: find functions the translator cannot handle
@@ -1454,15 +1492,25 @@ class Emitter:
         def goto(src, dst):
             return '%sgoto L_%s;' % (phi_moves(src, dst), san(dst))
 
-        # operator new(const) whose result is bitcast to a struct pointer of exactly that size: allocate a typed object
+        # operator new(const): allocate a TYPED object so that CBMC keeps it field-sensitive.
+        #  (a) result bitcast to a struct pointer of exactly that size -> that struct
+        #  (b) otherwise infer an ad-hoc struct from the typed stores at constant offsets that initialise it (std::function functors)
+        #  (c) otherwise (memcpy-initialised clone) reuse the ad-hoc struct inferred for the same size elsewhere in the module
+        defs = {}
+        for bb in f.blocks.values():
+            for I2 in bb:
+                if I2.get('res') is not None:
+                    defs[I2['res']] = I2
+        ctx.defs = defs
         for lab, b in f.blocks.items():
             for I in b:
                 if I['op'] == 'call' and I['callee'][0] == 'global' and I['callee'][1] in ('_Znwm', '_Znam') and I['res'] is not None \
-                        and len(I['args']) == 1 and I['args'][0][1][0] == 'int':
+                        and len(I['args']) == 1 and I['args'][0][1][0] == 'int' and I.get('typed_new') is None:
                     N = I['args'][0][1][1]
+                    r0 = I['res']
                     for bb in f.blocks.values():
                         for I2 in bb:
-                            if I2['op'] == 'cast' and I2['cast'] == 'bitcast' and I2['a'] == ('local', I['res']):
+                            if I2['op'] == 'cast' and I2['cast'] == 'bitcast' and I2['a'] == ('local', r0):
                                 to = self.m.resolve(I2['to'])
                                 if to.k == 'ptr':
                                     el = self.m.resolve(to.elem)
@@ -1471,6 +1519,47 @@ class Emitter:
                                             I['typed_new'] = el
                                     except ValueError:
                                         pass
+                    if I.get('typed_new') is None and I['callee'][1] == '_Znwm' and N <= 256:
+                        # (b) offsets of derived pointers
+                        off = {r0: 0}
+                        changed = True
+                        while changed:
+                            changed = False
+                            for n2, I2 in defs.items():
+                                if n2 in off:
+                                    continue
+                                if I2['op'] == 'cast' and I2['cast'] == 'bitcast' and I2['a'][0] == 'local' and I2['a'][1] in off:
+                                    off[n2] = off[I2['a'][1]]
+                                    changed = True
+                                elif I2['op'] == 'getelementptr' and I2['ops'][0][1][0] == 'local' and I2['ops'][0][1][1] in off \
+                                        and self.m.resolve(I2['srcty']).k == 'int' and self.m.resolve(I2['srcty']).bits == 8 and len(I2['ops']) == 2 and I2['ops'][1][1][0] == 'int':
+                                    off[n2] = off[I2['ops'][0][1][1]] + I2['ops'][1][1][1]
+                                    changed = True
+                        lay = {}
+                        for bb in f.blocks.values():
+                            for I2 in bb:
+                                if I2['op'] == 'store' and I2['p'][0] == 'local' and I2['p'][1] in off:
+                                    t2 = self.m.resolve(I2['ty'])
+                                    if t2.k in ('int', 'ptr'):
+                                        lay[off[I2['p'][1]]] = t2
+                        if lay:
+                            fields, pos, ok = [], 0, True
+                            for o in sorted(lay):
+                                if o < pos:
+                                    ok = False
+                                    break
+                                if o > pos:
+                                    fields.append(Ty('arr', n=o - pos, elem=I8))
+                                fields.append(lay[o])
+                                pos = o + self.m.size(lay[o])
+                            if ok and pos <= N:
+                                if pos < N:
+                                    fields.append(Ty('arr', n=N - pos, elem=I8))
+                                st = Ty('struct', fields=fields, packed=True)
+                                I['typed_new'] = st
+                                self.adhoc_by_size.setdefault(N, st)
+                    if I.get('typed_new') is None and I['callee'][1] == '_Znwm':
+                        I['typed_new_size'] = N
         for lab, b in f.blocks.items():
             L.append('L_%s: ;' % san(lab))
             for I in b:
@@ -1503,12 +1592,23 @@ class Emitter:
                     pe = self.cv(PTR8, I['p'], ctx)
                     if self.monitor and yield_cb:
                         L.extend(yield_cb('access', pe, self.m.size(I['ty']), 0))
-                    L.append('  %s = *(%s*)%s;' % (r, self.cbase(I['ty']), pe))
+                    if self.odd(I['ty']):
+                        nb = (self.m.resolve(I['ty']).bits + 7) // 8
+                        L.append('  %s = (%s)(%s)%s;' % (r, self.ct(I['ty']), ' | '.join('((u64)((u8*)%s)[%d] << %d)' % (pe, i, 8 * i) for i in range(nb)),
+                                                     ' & %dULL' % ((1 << self.m.resolve(I['ty']).bits) - 1)))
+                    else:
+                        L.append('  %s = *(%s*)%s;' % (r, self.cbase(I['ty']), pe))
                 elif op == 'store':
                     pe = self.cv(PTR8, I['p'], ctx)
                     if self.monitor and yield_cb:
                         L.extend(yield_cb('access', pe, self.m.size(I['ty']), 1))
-                    L.append('  *(%s*)%s = %s;' % (self.cbase(I['ty']), pe, self.cv(I['ty'], I['v'], ctx)))
+                    if self.odd(I['ty']):
+                        nb = (self.m.resolve(I['ty']).bits + 7) // 8
+                        vv = self.cv(I['ty'], I['v'], ctx)
+                        for i in range(nb):
+                            L.append('  ((u8*)%s)[%d] = (u8)((u64)%s >> %d);' % (pe, i, vv, 8 * i))
+                    else:
+                        L.append('  *(%s*)%s = %s;' % (self.cbase(I['ty']), pe, self.cv(I['ty'], I['v'], ctx)))
                 elif op == 'alloca':
                     r = declare(I, PTR8)
                     sn = 'a_' + self.local(I['res'], None)
@@ -1655,6 +1755,8 @@ class Emitter:
                 else:
                     raise NotImplementedError('intrinsic ' + base)
                 return L
+            if n == '_Znwm' and I.get('typed_new') is None and I.get('typed_new_size') in self.adhoc_by_size:
+                I['typed_new'] = self.adhoc_by_size[I['typed_new_size']]
             if n in ('_Znwm', '_Znam') and I.get('typed_new') is not None and n not in self.replace:
                 r = declare(I, rt)
                 self.used_types.append(I['typed_new'])
@@ -1682,13 +1784,164 @@ class Emitter:
                 y = yield_cb('icall', self.cv(PTR8, callee, ctx), a, I, declare)
                 if y is not None:
                     return y
-            call = '((%s(*)(%s))%s)(%s)' % (self.ct(rt), ', '.join(ps) or 'void', self.cv(PTR8, callee, ctx), ', '.join(a))
+            cands = self.icall_candidates(callee, ctx, ps, self.ct(rt), (fty.params[0] if (fty is not None and fty.params) else (args[0][0] if args else None)))
+            fpv = self.cv(PTR8, callee, ctx)
+            if cands is None:
+                call = '((%s(*)(%s))%s)(%s)' % (self.ct(rt), ', '.join(ps) or 'void', fpv, ', '.join(a))
+            else:
+                has_res = not (self.m.resolve(rt).k == 'void' or I['res'] is None)
+                r = declare(I, rt) if has_res else None
+                L.append('  { u8* fp_ = %s;' % fpv)
+                if self.last_slot is not None and a:
+                    L.append('    IR2C_NULLTHIS(%s);' % a[0])
+                kw = 'if'
+                seen_c = set()
+                for cn in cands:
+                    if self.fname(cn) in seen_c:
+                        continue
+                    seen_c.add(self.fname(cn))
+                    self.note_ext(cn)
+                    L.append('    %s (fp_ == (u8*)&%s) { %s%s(%s); }' % (kw, self.fname(cn), (r + ' = ') if has_res else '', self.fname(cn), ', '.join(a)))
+                    kw = 'else if'
+                L.append('    %s { IR2C_BADCALL(); }' % ('else' if cands else ''))
+                L.append('  }')
+                return L
         if self.m.resolve(rt).k == 'void' or I['res'] is None:
             L.append('  %s;' % call)
         else:
             r = declare(I, rt)
             L.append('  %s = %s;' % (r, call))
         return L
+
+    def vtables(self):
+        if getattr(self, '_vt', None) is None:
+            vt = {}
+            for n, g in self.m.globals.items():
+                if n.startswith('_ZTV') and g['init'] is not None and g['init'][0] == 'structv':
+                    for (et, ev) in g['init'][1]:
+                        if ev[0] == 'array':
+                            ents = []
+                            for (pt, pv) in ev[1]:
+                                x = pv
+                                while x[0] == 'cast':
+                                    x = x[2][1]
+                                ents.append(x[1] if x[0] == 'global' else None)
+                            vt[n] = ents
+            self._vt = vt
+            # address-taken functions outside vtables
+            at = set()
+
+            def scan(v, direct=None):
+                if isinstance(v, tuple):
+                    if len(v) == 2 and v[0] == 'global' and (v[1] in self.m.funcs or v[1] in self.m.decls):
+                        at.add(v[1])
+                        return
+                    for x in v:
+                        scan(x)
+                elif isinstance(v, list):
+                    for x in v:
+                        scan(x)
+            for f in self.m.funcs.values():
+                for b in f.blocks.values():
+                    for I in b:
+                        for k, x in I.items():
+                            if k == 'callee' and x[0] == 'global':
+                                continue
+                            if isinstance(x, (tuple, list)):
+                                scan(x)
+            for n, g in self.m.globals.items():
+                if not n.startswith('_ZTV') and g['init'] is not None:
+                    scan(g['init'])
+            self._at = at
+        return self._vt
+
+    def sig_of(self, n):
+        if n in self.replace and n not in self.m.funcs and n not in self.m.decls:
+            return None
+        if n in self.m.funcs:
+            f = self.m.funcs[n]
+            return (self.ct(f.ret), [self.ct(t) for t, _ in f.params], f.vararg)
+        if n in self.m.decls:
+            d = self.m.decls[n]
+            return (self.ct(d.ret), [self.ct(t) for t in d.params], d.vararg)
+        return None
+
+    def base_chain(self, t):
+        """names of the struct types at offset 0 of t (t itself, its first base, ...)"""
+        out = []
+        t = self.m.resolve(t)
+        while t is not None and t.k == 'struct':
+            if t.name is not None:
+                out.append(t.name)
+                if t.name.endswith('.base'):
+                    out.append(t.name[:-5])
+            if not t.fields:
+                break
+            t = self.m.resolve(t.fields[0])
+        return out
+
+    def this_compatible(self, cand, call_this):
+        """C++ typing of virtual calls: the callee's `this` class must be the call's static class or derived from it"""
+        if call_this is None or cand not in self.m.funcs:
+            return True
+        f = self.m.funcs[cand]
+        if not f.params:
+            return True
+        ct_ = self.m.resolve(f.params[0][0])
+        if ct_.k != 'ptr' or call_this.k != 'ptr':
+            return True
+        a, b = self.m.resolve(ct_.elem), self.m.resolve(call_this.elem)
+        if a.k != 'struct' or b.k != 'struct' or a.name is None or b.name is None:
+            return True
+        ca, cb = self.base_chain(a), self.base_chain(b)
+        return b.name in ca or a.name in cb
+
+    def icall_candidates(self, callee, ctx, ps, rct, call_this=None):
+        """own devirtualisation: the set of functions an indirect call can reach.
+        vtable-slot loads -> functions in that slot of some vtable; otherwise address-taken functions of the same C signature."""
+        self.last_slot = None
+        if callee[0] != 'local' or not hasattr(ctx, 'defs'):
+            return None
+        vt = self.vtables()
+        d = ctx.defs.get(callee[1])
+        slot = None
+        if d is not None and d['op'] == 'load' and d['p'][0] == 'local':
+            p = ctx.defs.get(d['p'][1])
+            while p is not None and p['op'] == 'cast' and p['a'][0] == 'local':
+                p = ctx.defs.get(p['a'][1])
+            if p is not None and p['op'] == 'load':
+                slot = 0                      # fp = *vptr
+            elif p is not None and p['op'] == 'getelementptr' and len(p['ops']) == 2 and p['ops'][1][1][0] == 'int' and p['ops'][0][1][0] == 'local':
+                q = ctx.defs.get(p['ops'][0][1][1])
+                while q is not None and q['op'] == 'cast' and q['a'][0] == 'local':
+                    q = ctx.defs.get(q['a'][1])
+                st = self.m.resolve(p['srcty'])
+                if q is not None and q['op'] == 'load' and st.k == 'ptr':
+                    slot = p['ops'][1][1][1]
+        want = [x for x in ps if x != '...']
+        out = []
+        self.last_slot = slot
+
+        def ok(n):
+            if n in self.m.funcs and n not in self.reach_fs and n not in self.replace:
+                return False
+            sg = self.sig_of(n)
+            return sg is not None and sg[1] == want and sg[0] == rct
+        if slot is not None:
+            for n, ents in vt.items():
+                if n not in self.reach_gs:
+                    continue
+                if 2 + slot < len(ents) and ents[2 + slot] is not None:
+                    c = ents[2 + slot]
+                    if c not in out and (ok(c) or c == '__cxa_pure_virtual'):
+                        if c != '__cxa_pure_virtual' and self.this_compatible(c, call_this):
+                            out.append(c)
+            if out:
+                return out
+        for n in sorted(self._at | set(e for vn, ents in vt.items() if vn in self.reach_gs for e in ents if e)):
+            if ok(n) and n not in out:
+                out.append(n)
+        return out
 
     # ------------------------------------------------------------------ resumable functions
     def emit_resumable(self, f):
